@@ -66,9 +66,10 @@ namespace occa {
   }
 
   memoryPool& memoryPool::swap(memoryPool &m) {
-    modeMemoryPool_t *modeMemoryPool_ = modeMemoryPool;
-    modeMemoryPool   = m.modeMemoryPool;
-    m.modeMemoryPool = modeMemoryPool_;
+    // Swap through the reference-counted setters so both rings stay consistent
+    memoryPool tmp(m);
+    m = *this;
+    *this = tmp;
     return *this;
   }
 
